@@ -325,6 +325,21 @@ func (Engine) Run(c *simkit.Choices, x *simkit.Ctx) *simkit.Violation {
 		}
 	}
 	// seeded random cut sets, incl. empty writes (duplicate positions)
+	if extreme {
+		// regular small pieces all the way through (every token is cut
+		// somewhere): what depends on the NUMBER of continuation steps after a
+		// huge token only shows this way
+		for i := 0; i < 2; i++ {
+			size := []int{7, 13, 64, 100, 1000, 4096}[c.N(6)]
+			var cuts []int
+			for p := size; p < n; p += size {
+				cuts = append(cuts, p)
+			}
+			if v := tryWrite(cuts); v != nil {
+				return v
+			}
+		}
+	}
 	k := 4 + c.N(6)
 	if extreme {
 		k = 2
